@@ -144,9 +144,16 @@ def pbShow : Option (Nat × List Bytes × Bytes) → String
   | some (o, p, c) => s!"{o}:{if p.isEmpty then "-" else ",".intercalate (p.map hx)}:{hx c}"
 
 def handlePBW (st : St) (n : Nat) (toks : List String) : Result :=
-  match field toks "old", field toks "proof", field toks "cp" with
-  | some o, some p, some c => { st := { st with lastPBW := some s!"{o}:{p}:{c}" }, out := [] }
-  | _, _, _ => { st, out := [s!"BAD {n} PBW"] }
+  match field toks "old", field toks "proof", field toks "cp", field toks "body" with
+  | some o, some p, some c, some b =>
+    let st := { st with lastPBW := some s!"{o}:{p}:{c}" }
+    -- the body writer of the model is the one the harness (and cmd/feedbastion) uses
+    match o.toNat?, parseList p, hexOfString c with
+    | some on, some pl, some cb =>
+      if hx (Bastion.writeBody on pl cb) == b then { st, out := [] }
+      else { st := { st with nDiv := st.nDiv + 1 }, out := [s!"DIVERGE {n} PB field=writeBody model={(hx (Bastion.writeBody on pl cb)).take 80} impl={b.take 80}"] }
+    | _, _, _ => { st, out := [s!"BAD {n} PBW"] }
+  | _, _, _, _ => { st, out := [s!"BAD {n} PBW"] }
 
 def handlePB (st : St) (n : Nat) (toks : List String) : Result :=
   match toks with
